@@ -20,6 +20,8 @@ type Term struct {
 	isBool bool
 	lo, hi *big.Int // interval for Int terms (nil = unbounded)
 	id     int
+	def    *termDef // definitional variable (model.go)
+	loInit *big.Int // low end of the declared range of a variable (default model value)
 	// for quotient variables: x = divC*q + divR
 	divOf *Term
 	divC  *big.Int
@@ -369,6 +371,8 @@ func wrapTo(k types.BasicKind, t *Term) *Term {
 	y := p.fresh("w", lo, hi)
 	kq := p.fresh("k", nil, nil)
 	m := new(big.Int).Add(new(big.Int).Sub(hi, lo), big.NewInt(1))
+	y.def = &termDef{kind: "wrapy", of: t, c: m, lo: lo}
+	kq.def = &termDef{kind: "wrapk", of: t, c: m, lo: lo}
 	p.side(tCmp("=", t, tAdd(y, tMulC(kq, m))))
 	return y
 }
@@ -429,6 +433,8 @@ func symBinop(op token.Token, t types.Type, x, y value) value {
 			}
 			p.divMemo[key] = [2]*Term{q, r}
 			q.divOf, q.divC, q.divR = xt, c, r
+			q.def = &termDef{kind: "divq", of: xt, c: c}
+			r.def = &termDef{kind: "divr", of: xt, c: c}
 		}
 		if op == token.QUO {
 			return mkSym(k, q)
